@@ -72,20 +72,47 @@ def unzip_source(flow, name_node):
     return None
 
 
-def _is_members(flow, node, members, pos=None):
-    """Does `node` denote the members of the level (or their pos-th components)?"""
-    if members is None:
-        return False
+def members_component(flow, node, members, depth=0):
+    """What `node` is in terms of the level's members (a sequence of (interval, value) pairs):
+    'whole' (the pairs themselves, all of them, in order), 0 / 1 (the list of that component of every
+    member), or None.  Followed through names, list()/tuple(), zip(*members) and comprehensions
+    without a filter."""
+    if members is None or depth > 6 or node is None:
+        return None
+    while isinstance(node, ast.Call) and isinstance(node.func, ast.Name) and node.func.id in ("list", "tuple") and len(node.args) == 1:
+        node = node.args[0]
     if isinstance(node, ast.Name):
-        if node.id == members and pos is None:
-            return True
+        if node.id == members:
+            return "whole"
         u = unzip_source(flow, node)
-        if u is not None and u[0] == members and (pos is None or u[1] == pos):
-            return True
-    txt = ast.unparse(node).replace(" ", "")
-    if pos is None and txt == members:
-        return True
-    return False
+        if u is not None and u[0] == members:
+            return u[1]
+        dv = flow.def_value(node)
+        return members_component(flow, dv, members, depth + 1) if dv is not None else None
+    if isinstance(node, (ast.ListComp, ast.GeneratorExp)) and len(node.generators) == 1 and not node.generators[0].ifs:
+        g = node.generators[0]
+        if members_component(flow, g.iter, members, depth + 1) != "whole":
+            return None
+        if isinstance(g.target, ast.Name) and isinstance(node.elt, ast.Name) and node.elt.id == g.target.id:
+            return "whole"
+        if isinstance(g.target, (ast.Tuple, ast.List)) and len(g.target.elts) == 2 and all(isinstance(e, ast.Name) for e in g.target.elts) \
+                and isinstance(node.elt, ast.Name):
+            names = [e.id for e in g.target.elts]
+            if node.elt.id in names:
+                return names.index(node.elt.id)
+        if isinstance(g.target, ast.Name) and isinstance(node.elt, ast.Subscript) and isinstance(node.elt.value, ast.Name) and node.elt.value.id == g.target.id \
+                and isinstance(node.elt.slice, ast.Constant) and node.elt.slice.value in (0, 1):
+            return node.elt.slice.value
+    return None
+
+
+def _is_members(flow, node, members, pos=None):
+    """Does `node` denote the members of the level (pos None: the members or any one component of all of
+    them -- for counting; pos 0 / 1: exactly that component)?"""
+    c = members_component(flow, node, members)
+    if c is None:
+        return False
+    return True if pos is None else c == pos
 
 
 def run(ctx, chk, tier="quick"):
@@ -116,7 +143,7 @@ def run(ctx, chk, tier="quick"):
         p1, p2 = _product(mod, m1) if m1 is not None else None, _product(mod, m2) if m2 is not None else None
         if p1 and p2 and isinstance(p1[1], ast.Name) and isinstance(p2[1], ast.Name):
             A, b = p1[1].id, p2[1].id
-            ok2 = _is_T(mod, p1[0], A) and _is_T(mod, p2[0], A) and A != b
+            ok2 = _is_T(mod, flow.expand(p1[0], keep={A, b}), A) and _is_T(mod, flow.expand(p2[0], keep={A, b}), A) and A != b
             desc = "solve(%s, %s)" % (ast.unparse(m1), ast.unparse(m2))
     elif kind == "lstsq" and len(sv.args) >= 2 and isinstance(sv.args[0], ast.Name) and isinstance(sv.args[1], ast.Name):
         A, b = sv.args[0].id, sv.args[1].id
@@ -173,6 +200,12 @@ def run(ctx, chk, tier="quick"):
     fill = fills[0]
     reset_ok = any(isinstance(r.value, ast.Constant) and r.value.value == 0 for r in reset) and \
         all(r.lineno < fill.lineno for r in reset)
+    # or: a fresh all-zero template is made for every level
+    fresh = [n for n in outer.body if isinstance(n, ast.Assign) and len(n.targets) == 1 and isinstance(n.targets[0], ast.Name)
+             and n.targets[0].id == template and isinstance(n.value, ast.Call) and (full_call_name(mod, n.value) or "").split(".")[-1] in ("zeros", "zeros_like")]
+    if fresh and fresh[0].lineno < fill.lineno:
+        reset_ok = True
+        reset = reset or fresh
     chk.ob("C05.O1", reset_ok, where_of(f, reset[0] if reset else fill), "row template reset per level: %s" % bool(reset_ok),
            "coefficients of the previous level are cleared", key="find_offsets|template-reset", scope=f,
            why="stale coefficients couple intervals that do not cross this level")
@@ -229,9 +262,14 @@ def run(ctx, chk, tier="quick"):
             other = r if isinstance(l, ast.Name) and l.id == tv else l
             ref_name = other.id if isinstance(other, ast.Name) else None
             src_ok = _is_members(flow, g.iter, members, 0) or (isinstance(g.iter, ast.Name) and g.iter.id == members)
+            if members_component(flow, g.iter, members) is None:
+                cols_ok = None          # the sequence the columns are taken over is not traced to the members
             elt_ok = isinstance(cdef.elt, ast.Subscript) and isinstance(cdef.elt.slice, ast.Name) and cdef.elt.slice.id == tv
-            cols_ok = src_ok and elt_ok and ref_name is not None
-    chk.ob("C05.O1", cols_ok, where_of(f, fill), "columns filled = %s" % (ast.unparse(cdef)[:90] if cdef is not None else "?"),
+            cols_ok = (src_ok and elt_ok and ref_name is not None) if cols_ok is not None else None
+    if cols_ok is None:
+        chk.indeterminate("C05.O1", where_of(f, fill), "columns filled = %s: not traced to the members of the level" % (ast.unparse(cdef)[:80] if cdef is not None else "?"))
+    else:
+      chk.ob("C05.O1", cols_ok, where_of(f, fill), "columns filled = %s" % (ast.unparse(cdef)[:90] if cdef is not None else "?"),
            "the columns of every member of the level except the reference interval", key="find_offsets|member-columns", scope=f,
            why="the reference interval's offset is fixed at zero and has no column")
     # own column: guarded by series != reference; delta -sigma
